@@ -239,6 +239,36 @@ func c01Build(tier mc.Tier) *c01Fixture {
 			}
 		}
 	}
+	// JWS payload text with line breaks inside, signed in that form (base64 decoders skip CR and LF; the signature covers the carried
+	// characters): what comes back is the payload that was signed, nothing more
+	for _, k := range keys[:2] {
+		for _, wr := range []struct {
+			n string
+			f func(string) string
+		}{{"wrapped-at-64-columns-with-CRLF", func(t string) string {
+			var b strings.Builder
+			for i := 0; i < len(t); i += 64 {
+				j := i + 64
+				if j > len(t) {
+					j = len(t)
+				}
+				b.WriteString(t[i:j])
+				b.WriteString("\r\n")
+			}
+			return b.String()
+		}}, {"with-one-LF-after-the-first-character", func(t string) string { return t[:1] + "\n" + t[1:] }}, {"with-a-trailing-CRLF", func(t string) string { return t + "\r\n" }}} {
+			ch := c01Chain(f, k, 2)
+			cont := content(envenc.SchemeX509, false)
+			spec := newEnvSpec(envenc.MediaJWS, cont, k)
+			spec.chain = ders(ch)
+			spec.unprot = envenc.Unprotected{Chain: spec.chain}
+			spec.payloadText = wr.f
+			e := &c01Entry{name: fmt.Sprintf("jws/%s/payload-text-%s", kindOf(k), wr.n), media: envenc.MediaJWS, keyName: k, chain: ch, cont: cont, light: true, unprot: spec.unprot}
+			spec.jwsOuter = func(p envenc.JWSParts) []byte { e.jws = p; return p.Assemble() }
+			e.env, _, _, _ = spec.encode(&f.ledger, e.name)
+			add(e)
+		}
+	}
 	// leaf substitutes
 	for _, k := range keys[:2] {
 		other := map[string]string{"p256-e": "p256-f", "rsa2048-b": "rsa2048-c"}[k]
